@@ -26,8 +26,33 @@ pub fn run(ctx: &mut Ctx) {
     let mut cfg = GenCfg::standard();
     cfg.splits = true;
     let n = ctx.n(500, 30_000);
-    let cases = matcher_cases(prop, ctx, &cfg, n);
-    ctx.ev.rule = "corpus + fixtures + generated ledgers with CAPRETURN/ACCUMULATION/DIVIDEND at any position. Oracles on the real matcher: (a) removing every DIVIDEND line changes no leg and no holding; (b) inserting an ACCUMULATION and a CAPRETURN of equal net amount on one date (in either line order) changes nothing and is not refused; (c) inserting one ACCUMULATION of v on a date where shares are held (ledgers without splits) raises Σ legs' cost + closing cost of that security by exactly v and leaves other securities alone; a CAPRETURN lowers it by exactly its net amount or is refused with a message citing S122; (d) no leg or holding has negative allowable cost — except inside known-finding class negativeLot (D6), decided by the Lean model of the pre-pass. Correspondence: accept/refuse and costs vs the model. Non-trivial = ledgers with an effective cost event; distinct by ledger text.".into();
+    let mut cases = matcher_cases(prop, ctx, &cfg, n);
+    // several cost events of one security on one date whose sum straddles the remaining expenditure
+    {
+        let mut r = Rng::new(ctx.seed ^ 0x5122);
+        for i in 0..(n / 5) {
+            let mut l: Ledger = Vec::new();
+            let d0 = ledger::d(2024, 1, 1) + Duration::days(r.range(0, 300));
+            let q = Decimal::from(*r.pick(&[1i64, 10, 100]));
+            let p = Decimal::from(r.range(1, 200));
+            l.push(GTx::new(d0, "AAA", Kind::Buy, q, p, ledger::gen_fee(&mut r, true)));
+            if r.chance(1, 3) { l.push(GTx::new(d0 + Duration::days(5), "AAA", Kind::Buy, q, Decimal::from(r.range(1, 50)), Decimal::ZERO)); }
+            if r.chance(1, 3) { l.push(GTx::new(d0 + Duration::days(8), "AAA", Kind::Sell, (q / Decimal::TWO).round_dp(0).max(Decimal::ONE), p, Decimal::ZERO)); }
+            let cost = q * p;
+            let e = d0 + Duration::days(r.range(10, 60));
+            let k = 2 + r.below(2);
+            for _ in 0..k {
+                let frac = Decimal::new(r.range(30, 75), 2);
+                let fee = if r.chance(1, 3) { Decimal::new(r.range(1, 500), 2) } else { Decimal::ZERO };
+                l.push(GTx::new(e, "AAA", Kind::CapReturn, q, (cost * frac).round_dp(2) + fee, fee));
+            }
+            if r.chance(1, 3) { l.push(GTx::new(e, "AAA", Kind::Accumulation, q, (cost * Decimal::new(r.range(5, 60), 2)).round_dp(2), Decimal::ZERO)); }
+            l.push(GTx::new(e + Duration::days(r.range(1, 90)), "AAA", Kind::Sell, Decimal::ONE, p, Decimal::ZERO));
+            if r.chance(1, 2) { r.shuffle(&mut l); }
+            cases.push((format!("multicap#{i}"), l));
+        }
+    }
+    ctx.ev.rule = "corpus + fixtures + generated ledgers with CAPRETURN/ACCUMULATION/DIVIDEND at any position, plus ledgers with 2–3 capital returns (and sometimes an accumulation) of one security on one date whose sum straddles the remaining expenditure. Oracles on the real matcher: (a) removing every DIVIDEND line changes no leg and no holding; (b) inserting an ACCUMULATION and a CAPRETURN of equal net amount on one date (in either line order) changes nothing and is not refused; (c) inserting one ACCUMULATION of v on a date where shares are held (ledgers without splits) raises Σ legs' cost + closing cost of that security by exactly v and leaves other securities alone; a CAPRETURN lowers it by exactly its net amount or is refused with a message citing S122; (d) no leg or holding has negative allowable cost — except inside known-finding class negativeLot (D6), decided by the Lean model of the pre-pass. Correspondence: accept/refuse and costs vs the model. Non-trivial = ledgers with an effective cost event; distinct by ledger text.".into();
     let mut r = Rng::new(ctx.seed ^ 0xC11);
     for (name, l) in cases {
         if !well_formed(&l) || l.is_empty() { continue; }
@@ -59,6 +84,10 @@ pub fn run(ctx: &mut Ctx) {
                 ctx.ev.violation("oracle", format!("removing the DIVIDEND lines changes disposals or holdings: {what}"), replay_text(prop, "oracle (a)", &what, &l, &[format!("case {name}")]));
             }
         }
+        // known-finding class D6, decided by the Lean model of the pre-pass on the base ledger: inside
+        // it a lot already carries negative cost, so "cancel" and "exact move" can be refused later
+        let in_d6 = match ctx.model.as_mut() { Some(m) if has_kind(&l, Kind::CapReturn) => m.ask(&format!("class negativeLot {}", ledger::wire(&l))) == "yes", _ => false };
+        const D6: &str = "D6: a capital return apportioned by shares drives a cheap lot's allowable cost negative (refusal test uses the sum of the held lots' costs)";
         if let Ok(bout) = &base {
             let tk = l[r.below(l.len() as u64) as usize].ticker.clone();
             let date = l[r.below(l.len() as u64) as usize].date + Duration::days(*r.pick(&[0i64, 0, 1, 7, 40]));
@@ -80,6 +109,7 @@ pub fn run(ctx: &mut Ctx) {
                 if order == 0 { var.push(acc); var.push(cap); } else { var.push(cap); var.push(acc); }
                 ctx.ev.count("cancel-pairs");
                 if let Some(what) = same_match(&run_impl::impl_match(&var), &base, multi_sell_day(&l)) {
+                    if in_d6 { ctx.ev.known("negativeLot", D6); break; }
                     ctx.ev.violation("oracle", format!("an accumulation and a capital return of equal net amount on {date} do not cancel: {what}"), replay_text(prop, "oracle (b)", &what, &var, &[format!("case {name}")]));
                     break;
                 }
@@ -97,7 +127,8 @@ pub fn run(ctx: &mut Ctx) {
                     ctx.ev.count("single-accumulation");
                     let delta = total_cost(&vout, &tk).sub(&total_cost(bout, &tk));
                     let want = if pos.is_pos() { Q::from_dec(v) } else { Q::zero() };
-                    if !delta.close(&want, 12) {
+                    if !delta.close(&want, 12) && in_d6 { ctx.ev.known("negativeLot", D6); }
+                    else if !delta.close(&want, 12) {
                         ctx.ev.violation("oracle", format!("an accumulation of {v} on {date} with {} {tk} shares held changes that security's allowable expenditure by {}", pos.approx(), delta.approx()), replay_text(prop, "oracle (c)", "accumulation must move cost by exactly its amount", &var, &[format!("case {name}")]));
                     }
                     for t in bout.iter().filter(|t| t.ticker != tk) {
@@ -116,7 +147,8 @@ pub fn run(ctx: &mut Ctx) {
                         ctx.ev.count("single-capreturn-accepted");
                         let delta = total_cost(&vout, &tk).sub(&total_cost(bout, &tk));
                         let want = if pos.is_pos() { Q::from_dec(v - fee).neg() } else { Q::zero() };
-                        if !delta.close(&want, 12) {
+                        if !delta.close(&want, 12) && in_d6 { ctx.ev.known("negativeLot", D6); }
+                        else if !delta.close(&want, 12) {
                             ctx.ev.violation("oracle", format!("a capital return of net {} on {date} with {} {tk} shares held changes that security's allowable expenditure by {}", v - fee, pos.approx(), delta.approx()), replay_text(prop, "oracle (c)", "capital return must move cost by exactly its net amount", &var, &[format!("case {name}")]));
                         }
                     }
@@ -130,8 +162,7 @@ pub fn run(ctx: &mut Ctx) {
                 None
             });
             if let Some(what) = neg {
-                let in_class = match ctx.model.as_mut() { Some(m) => m.ask(&format!("class negativeLot {}", ledger::wire(&l))) == "yes", None => false };
-                if in_class {
+                if in_d6 {
                     ctx.ev.known("negativeLot", "D6: a capital return apportioned by shares drives a cheap lot's allowable cost negative (refusal test uses the sum of the held lots' costs)");
                 } else {
                     ctx.ev.violation("oracle", format!("negative allowable cost outside the known class: {what}"), replay_text(prop, "oracle (d)", &what, &l, &[format!("case {name}")]));
